@@ -105,6 +105,7 @@ type GhostField struct {
 	TypeName string
 	Field    string
 	Type     ast.Expr
+	Alias    string // "pkgpath.Type.field" of the ghost field this one aliases
 }
 
 type GlobalSpec struct {
@@ -558,11 +559,20 @@ func (sp *Specs) ParseSpecText(lines []specLine, file, pkgPath string) error {
 			if len(tf) != 2 {
 				return errf("ghostfield Type.field type")
 			}
-			te, err := parser.ParseExpr(strings.Join(f[1:], " "))
+			alias := ""
+			tyFields := f[1:]
+			for i, w := range tyFields {
+				if w == "alias" && i+1 < len(tyFields) {
+					alias = tyFields[i+1]
+					tyFields = tyFields[:i]
+					break
+				}
+			}
+			te, err := parser.ParseExpr(strings.Join(tyFields, " "))
 			if err != nil {
 				return errf("bad ghost field type: %v", err)
 			}
-			sp.Ghosts[pkgPath+"."+tf[0]+"."+tf[1]] = &GhostField{PkgPath: pkgPath, TypeName: tf[0], Field: tf[1], Type: te}
+			sp.Ghosts[pkgPath+"."+tf[0]+"."+tf[1]] = &GhostField{PkgPath: pkgPath, TypeName: tf[0], Field: tf[1], Type: te, Alias: alias}
 		case "global":
 			f := strings.Fields(s.rest)
 			g := &GlobalSpec{PkgPath: pkgPath, Name: f[0]}
